@@ -26,7 +26,7 @@ RULE = ("random programs of 50-500 API calls (by_path, ckd, generate_children, d
         "orders, hardened/normal index twins (i and i+2^31) and reuse of returned children as subjects; the same programs run "
         "from 2-8 threads on the same objects under seeded LINE-level yield injection and a 1us switch interval; distinct = "
         "distinct (monitor, case) digests plus distinct interleaving signatures"
-        " EXTENSIONS: + related consecutive by_path requests, capacity scenarios (2^14+600 real, 2^19+600 private and 2^18+600 public in fast mode; thorough up to 2^21+600) with two held children and a running generator, deterministic single-preemption sweep, listings of the same children through the caller's own callables sharing a qualified name (callable_pairs)")
+        " EXTENSIONS: + related consecutive by_path requests, capacity scenarios (2^14+600 real, 2^19+600 private and 2^18+600 public in fast mode; thorough up to 2^21+600) with two held children and a running generator, deterministic single-preemption sweep, listings of the same children through the caller's own callables sharing a qualified name (callable_pairs), listing intervals in every range() form (empty, reversed, stepped down / up) on shared nodes")
 LEVEL_TEXT = ("Every event of every history is compared with a stateless recomputation from the root (reference model), so no "
               "result may depend on earlier calls, their order or multiplicity; concatenation, generator stepping, root-key "
               "immutability, per-node identity (icontract snapshot on ckd) and children-count conservation are checked; "
@@ -281,16 +281,24 @@ class Runner:
             return
         s = self.rnd.choice([0, 0, 1, 5, H - 3]) if not self.world.private(h.wid) or self.rnd.random() < 0.6 else self.rnd.choice([H, H + 1, H + 5])
         n = self.rnd.randrange(0, 4)
+        # the interval is whatever range() takes: ascending, empty, reversed (empty), stepped down (newest first), stepped up
+        form = self.rnd.choice(["asc", "asc", "asc", "reversed", "desc-step", "asc-step2"])
+        iv = {"asc": (s, s + n), "reversed": (s + n, s), "desc-step": (s + n - 1, s - 1, -1), "asc-step2": (s, s + 2 * n, 2)}[form]
+        if form == "desc-step" and s == 0:
+            iv = (s + n, s, -1)
+        want_idx = list(range(*iv))
+        if any(i >= H for i in want_idx) and not self.world.private(h.wid):
+            return
         try:
-            kids = h.node.generate_children(interval=(s, s + n))
+            kids = h.node.generate_children(interval=iv)
         except Exception as e:  # noqa
-            return self.ev("generate_children", h, {"interval": [s, s + n]}, False, "list", e, mech="generate_children.raised")
-        if len(kids) != n:
-            return self.ev("generate_children", h, {"interval": [s, s + n]}, False, n, len(kids), mech="generate_children.count")
+            return self.ev("generate_children", h, {"interval": list(iv)}, False, "list", e, mech="generate_children.raised")
+        if len(kids) != len(want_idx):
+            return self.ev("generate_children", h, {"interval": list(iv)}, False, len(want_idx), len(kids), mech="generate_children.count")
         for j, k in enumerate(kids):
-            self.check_node("generate_children", h, {"interval": [s, s + n], "j": j}, k, h.wid, h.path + (s + j,))
+            self.check_node("generate_children", h, {"interval": list(iv), "j": j}, k, h.wid, h.path + (want_idx[j],))
         if kids:
-            self.handles.append(Handle(kids[-1], h.path + (s + n - 1,), h.wid))
+            self.handles.append(Handle(kids[-1], h.path + (want_idx[-1],), h.wid))
 
     def op_address(self):
         h = self.pick()
